@@ -247,6 +247,13 @@ func runC10(cfg *Config) *Report {
 			cf.add("CaseP hdefs GFail 0 0 [ONil]")
 			break
 		}
+		// the argument list is the caller's: after it has been handed to the concurrent combinator (and the goal has run), the very
+		// same slice handed to the sequential combinator gives what a fresh list gives
+		shared := plain()
+		_, _ = observeGuarded(conc(shared...), st0, budget, 8*time.Second)
+		if after := observeTrace(seq(shared...)(st0), budget); traceStr(after) != traceStr(seqTr) {
+			rep.violate(i, "argument-list-changed-by-the-combinator", desc, fmt.Sprintf("gs handed to concurrent.%s(gs...), then to the sequential combinator: %s ; the sequential combinator on a fresh list: %s", comb, traceStr(after), traceStr(seqTr)))
+		}
 		obs := traceStr(runs[0])
 		// ownership: no stream cell of an argument goal is forced by two goroutines at the same time (data race on its memo)
 		probe := &forceProbe{slow: 6, pause: 400 * time.Microsecond}
